@@ -3,7 +3,7 @@
      big.Int.Bytes / SetBytes        -> [Bytes], [of_be]      (minimal big-endian magnitude; empty for 0)
      encoding/hex EncodeToString     -> [hex_encode]           (lower case)
      encoding/hex DecodeString       -> [hex_decode]           (accepts both cases, rejects odd length / other chars)
-     encoding/asn1 INTEGER (>= 0), definite lengths, TLV -> [int_content], [der_len], [tlv], [read_tlv], [read_int] *)
+     (the DER pieces - INTEGER, definite lengths, TLV - are those of coq/SM2/DER.v, see Ser/SerDER.v) *)
 From Coq Require Import List NArith Arith Bool.
 Import ListNotations.
 Open Scope N_scope.
@@ -55,68 +55,6 @@ Fixpoint hex_decode (s : list N) : option (list byte) :=
     | Some h, Some l, Some r => Some (h * 16 + l :: r)
     | _, _, _ => None
     end
-  end.
-
-(* ---------- DER pieces (encoding/asn1 Marshal / Unmarshal for the shapes gmsm uses) --------------- *)
-(* marshalBigInt for n >= 0: 0 -> 00; otherwise Bytes with a 00 in front when the top bit is set *)
-Definition int_content (n : N) : list byte :=
-  match Bytes n with
-  | [] => [0]
-  | b0 :: t => if 128 <=? b0 then 0 :: b0 :: t else b0 :: t
-  end.
-
-(* checkInteger + parseBigInt restricted to what gmsm then accepts: returns None for empty or
-   non-minimal contents; Some (negative?, magnitude of a non-negative value) *)
-Definition int_minimal (c : list byte) : bool :=
-  match c with
-  | [] => false
-  | [_] => true
-  | b0 :: b1 :: _ => negb (((b0 =? 0) && (b1 <? 128)) || ((b0 =? 255) && (128 <=? b1)))
-  end.
-
-Definition int_negative (c : list byte) : bool := 128 <=? hd 0 c.
-
-Definition der_len (L : nat) : list byte :=
-  if (L <? 128)%nat then [N.of_nat L]
-  else let lb := Bytes (N.of_nat L) in N.of_nat (128 + length lb) :: lb.
-
-Definition tlv (tag : N) (content : list byte) : list byte := tag :: der_len (length content) ++ content.
-
-(* read one TLV with the expected single-byte tag: (contents, rest).  Long-form lengths must be minimal
-   (>= 128, no leading zero), as parseTagAndLength demands. *)
-Definition read_tlv (tag : N) (b : list byte) : option (list byte * list byte) :=
-  match b with
-  | t :: l0 :: rest =>
-    if negb (t =? tag) then None
-    else if l0 <? 128 then
-      if (length rest <? N.to_nat l0)%nat then None
-      else Some (firstn (N.to_nat l0) rest, skipn (N.to_nat l0) rest)
-    else
-      let k := N.to_nat (l0 - 128) in
-      if ((k =? 0) || (length rest <? k))%nat then None
-      else
-        let lb := firstn k rest in
-        let L := of_be lb in
-        if (hd 0 lb =? 0) || (L <? 128) then None
-        else
-          let rest' := skipn k rest in
-          if (length rest' <? N.to_nat L)%nat then None
-          else Some (firstn (N.to_nat L) rest', skipn (N.to_nat L) rest')
-  | _ => None
-  end.
-
-Definition TAG_INT : N := 2.
-Definition TAG_OCTETS : N := 4.
-Definition TAG_SEQ : N := 48.
-
-Definition der_int (n : N) : list byte := tlv TAG_INT (int_content n).
-
-(* a non-negative INTEGER: None on malformed, Some (inl tt) on a negative value *)
-Definition read_int (b : list byte) : option ((unit + N) * list byte) :=
-  match read_tlv TAG_INT b with
-  | Some (c, rest) =>
-    if int_minimal c then Some ((if int_negative c then inl tt else inr (of_be c)), rest) else None
-  | None => None
   end.
 
 (* modular exponentiation, square and multiply over the bits of the exponent *)
